@@ -125,6 +125,10 @@ Section LayerA.
     let b := enc_status (mkPbStatus (Z.of_N code) message details) in
     if nlen b <=? USIZE_MAX then Ok b else Panic.
 
+  (* the bytes gen_details_bytes has to write for a list of details *)
+  Definition status_bytes (code : N) (message : str) (ds : list error_detail) : res (list N) :=
+    bind (map_res into_any ds) (fun conv => Ok (enc_status (mkPbStatus (Z.of_N code) message conv))).
+
   Definition opt_list {A} (f : A -> error_detail) (o : option A) : list error_detail :=
     match o with Some x => [f x] | None => [] end.
   (* with_error_details_and_metadata: the ten `if let Some(x) = details.f { push(x.into_any()) }` *)
